@@ -1,24 +1,42 @@
 (** C20 proofs: the hash join of the model is the nested-loop join of the
     specification, cross join, and the table-level delimited round trip. *)
 From Coq Require Import Permutation.
+From Coq Require QArith.
 From CG3 Require Import Lib.PyZ Lib.Chars Lib.StableSort Lib.Val Model.Csv Model.Table Model.TableRun
      Spec.TableSpec Proofs.TableBase Proofs.CsvProofs.
 Import ListNotations.
 
 (* ------------------------------------------------------------------ Python equality of keys is an equivalence *)
 
-Definition cnorm (c : cell) : cell := match c with CB b => CI (b2z b) | x => x end.
+(* normal form: a number as its reduced fraction, anything else as itself *)
+Definition cnorm (c : cell) : QArith_base.Q + cell :=
+  match cell_q c with Some q => inl (Qreduction.Qred q) | None => inr c end.
+
+Lemma Qred_eq_iff (p q : QArith_base.Q) :
+  QArith_base.Qeq p q <-> Qreduction.Qred p = Qreduction.Qred q.
+Proof.
+  split.
+  - apply Qreduction.Qred_complete.
+  - intro H. apply QArith_base.Qeq_trans with (Qreduction.Qred p).
+    + apply QArith_base.Qeq_sym. apply Qreduction.Qred_correct.
+    + rewrite H. apply Qreduction.Qred_correct.
+Qed.
 
 Lemma cell_eqb_cnorm a b : cell_eqb a b = true <-> cnorm a = cnorm b.
 Proof.
-  destruct a as [x|x|x|], b as [y|y|y|]; cbn [cell_eqb cnorm];
-    try (split; intro H; discriminate H).
-  - rewrite Z.eqb_eq. split; intro H; [subst; reflexivity|injection H; auto].
-  - rewrite Z.eqb_eq. split; intro H; [subst; reflexivity|injection H; auto].
-  - rewrite str_eqb_eq. split; intro H; [subst; reflexivity|injection H; auto].
-  - rewrite Z.eqb_eq. split; intro H; [rewrite H; reflexivity|injection H; auto].
-  - destruct x, y; cbn; split; intro H; try reflexivity; try discriminate H.
-  - split; reflexivity.
+  unfold cell_eqb, cnorm.
+  destruct (cell_q a) as [p|] eqn:Ea, (cell_q b) as [q|] eqn:Eb.
+  - split; intro H.
+    + apply QArith_base.Qeq_bool_iff in H. apply Qred_eq_iff in H. rewrite H. reflexivity.
+    + apply QArith_base.Qeq_bool_iff. apply Qred_eq_iff. injection H. auto.
+  - split; intro H; discriminate H.
+  - split; intro H; discriminate H.
+  - destruct a as [x|x|x| |x1 x2]; try discriminate Ea;
+      destruct b as [y|y|y| |y1 y2]; try discriminate Eb.
+    + rewrite str_eqb_eq. split; intro H; [subst; reflexivity|injection H; auto].
+    + split; intro H; discriminate H.
+    + split; intro H; discriminate H.
+    + split; reflexivity.
 Qed.
 
 Lemma key_eqb_cnorm a : forall b, key_eqb a b = true <-> map cnorm a = map cnorm b.
@@ -448,9 +466,72 @@ Proof.
   destruct (n <? 10); [exact Hd|]. apply IH. exact Hd.
 Qed.
 
+Lemma field_okb_app a b : field_okb (a ++ b) = field_okb a && field_okb b.
+Proof. unfold field_okb. rewrite existsb_app, negb_orb. reflexivity. Qed.
+
+Lemma fok_app a b : field_okb a = true -> field_okb b = true -> field_okb (a ++ b) = true.
+Proof. intros Ha Hb. rewrite field_okb_app, Ha, Hb. reflexivity. Qed.
+
+Lemma fok_cons c f : (c =? ch_cr) = false -> field_okb f = true -> field_okb (c :: f) = true.
+Proof.
+  intros Hc Hf. unfold field_okb in *. cbn [existsb]. rewrite Hc. cbn [orb]. exact Hf.
+Qed.
+
+Lemma fok_zeros k : field_okb (zeros k) = true.
+Proof.
+  unfold zeros. induction (Z.to_nat k) as [|n IH]; [reflexivity|].
+  cbn [repeat]. apply fok_cons; [reflexivity|exact IH].
+Qed.
+
+Lemma fok_firstn_skipn n s :
+  field_okb s = true -> field_okb (firstn n s) = true /\ field_okb (skipn n s) = true.
+Proof.
+  intro H. rewrite <- (firstn_skipn n s), field_okb_app in H. apply andb_true_iff in H. exact H.
+Qed.
+
+Lemma fok_nat_str n : field_okb (nat_str n) = true.
+Proof. unfold nat_str. apply (digits_no_cr _ _ []). reflexivity. Qed.
+
+Lemma fok_exp_str x : field_okb (exp_str x) = true.
+Proof.
+  unfold exp_str. apply fok_cons; [destruct (x <? 0); reflexivity|].
+  destruct (Z.abs x <? 10); [apply fok_cons; [reflexivity|]|]; apply fok_nat_str.
+Qed.
+
+Lemma fok_float_str m e : field_okb (float_str m e) = true.
+Proof.
+  unfold float_str. cbv zeta.
+  pose proof (fok_nat_str (Z.abs m)) as Hds.
+  generalize (zlen (nat_str (Z.abs m)) + e). generalize (zlen (nat_str (Z.abs m))).
+  revert Hds. generalize (nat_str (Z.abs m)). intros ds Hds n decpt.
+  assert (Hbody : field_okb
+            (if (-4 <? decpt) && (decpt <=? 16)
+             then if decpt <=? 0 then [48; 46] ++ zeros (- decpt) ++ ds
+                  else if n <=? decpt then ds ++ zeros (decpt - n) ++ [46; 48]
+                       else firstn (Z.to_nat decpt) ds ++ 46 :: skipn (Z.to_nat decpt) ds
+             else match ds with
+                  | [] => []
+                  | d1 :: rest =>
+                      d1 :: (match rest with [] => [] | _ :: _ => 46 :: rest end) ++ 101 :: exp_str (decpt - 1)
+                  end) = true).
+  { destruct ((-4 <? decpt) && (decpt <=? 16)).
+    - destruct (decpt <=? 0).
+      + apply fok_app; [reflexivity|]. apply fok_app; [apply fok_zeros|exact Hds].
+      + destruct (n <=? decpt).
+        * apply fok_app; [exact Hds|]. apply fok_app; [apply fok_zeros|reflexivity].
+        * destruct (fok_firstn_skipn (Z.to_nat decpt) ds Hds) as [H1 H2].
+          apply fok_app; [exact H1|]. apply fok_cons; [reflexivity|exact H2].
+    - destruct ds as [|d1 rest]; [reflexivity|].
+      apply field_okb_cons in Hds. destruct Hds as [Hd Hr].
+      apply fok_cons; [exact Hd|]. apply fok_app.
+      + destruct rest as [|d2 rest']; [reflexivity|]. apply fok_cons; [reflexivity|exact Hr].
+      + apply fok_cons; [reflexivity|apply fok_exp_str]. }
+  destruct (m <? 0); [apply fok_cons; [reflexivity|exact Hbody]|exact Hbody].
+Qed.
+
 Lemma csv_cell_text_ok c : cell_text_okb c = true -> field_okb (csv_cell_text c) = true.
 Proof.
-  destruct c as [z|s|b|]; cbn [cell_text_okb csv_cell_text cell_str]; intro H.
+  destruct c as [z|s|b| |m e]; cbn [cell_text_okb csv_cell_text cell_str]; intro H.
   - unfold z_str. destruct (z <? 0).
     + unfold field_okb. cbn [existsb]. change (45 =? ch_cr) with false. cbn [orb].
       apply (digits_no_cr _ _ []). reflexivity.
@@ -458,6 +539,7 @@ Proof.
   - exact H.
   - destruct b; reflexivity.
   - reflexivity.
+  - apply fok_float_str.
 Qed.
 
 (* writing a table as delimited text and reading the text back returns the
